@@ -1471,6 +1471,7 @@ impl Server {
             "BRPOP" => self.handle_brpop(parts, db, conn_id),
             "KEYS" => crate::storage::commands::strings::handle_keys(&self.storage, db, parts),
             "PEXPIRE" => crate::storage::commands::strings::handle_pexpire(&self.storage, db, parts),
+            "PEXPIREAT" => crate::storage::commands::strings::handle_pexpireat(&self.storage, db, parts),
             "PTTL" => crate::storage::commands::strings::handle_pttl(&self.storage, db, parts),
             "PERSIST" => crate::storage::commands::strings::handle_persist(&self.storage, db, parts),
             // List commands
@@ -1678,6 +1679,27 @@ impl Server {
             }
         }
         
+        // A time to live counts from the moment the command ran. Log the deadline it gave the key
+        // as an absolute time as well (PEXPIREAT), so that the key does not get its time to live
+        // afresh, or come back after it expired, when the file is replayed later
+        if matches!(command_name.as_str(), "SET" | "SETEX" | "PSETEX" | "EXPIRE" | "PEXPIRE") {
+            if let (Some(aof), Ok(reply), Some(RespFrame::BulkString(Some(key)))) = (&self.aof_engine, &result, parts.get(1)) {
+                if !reply.is_error() {
+                    if let Ok(Some(remaining)) = self.storage.ttl(db, key) {
+                        let deadline = (SystemTime::now() + remaining).duration_since(UNIX_EPOCH).unwrap_or_default();
+                        let logged = [
+                            RespFrame::bulk_string("PEXPIREAT"),
+                            parts[1].clone(),
+                            RespFrame::bulk_string(deadline.as_millis().to_string()),
+                        ];
+                        if let Err(e) = aof.append_command(&logged, db) {
+                            eprintln!("Failed to append to AOF: {}", e);
+                        }
+                    }
+                }
+            }
+        }
+        
         // Zero-overhead monitoring completion - only when enabled and timing started
         if let Some(start_time) = start_time {
             if self.monitoring.is_enabled() {
@@ -1819,7 +1841,7 @@ impl Server {
                 "XADD" | "XTRIM" | "XDEL" |  // Stream write commands
                 "XGROUP" | "XACK" | "XCLAIM" |  // Consumer group write commands
                 "MSET" | "APPEND" | "SETRANGE" | "RENAME" | "RENAMENX" | "PERSIST" | "EVAL" | "EVALSHA" |
-                "GETSET" | "HMSET" | "PEXPIRE" | "XREADGROUP"
+                "GETSET" | "HMSET" | "PEXPIRE" | "XREADGROUP" | "PEXPIREAT"
             )
         }
     }
